@@ -99,6 +99,31 @@ def scenario_histories(ctx):
     return hs
 
 
+def interplay_histories():
+    """A written handle kept open across calls that remove or move its entry, and relative spellings of names
+    ('a/b', './a/b', '.', '') in every position.  The open-handle histories are not evaluated on M1 (handles are modelled separately, File.v):
+    they are judged by the reference run and the tree oracles only."""
+    W = 0o100 | 2   # O_CREATE|O_RDWR
+    hs = []
+    for k, mid in enumerate(([{"op": "removeall", "name": "/d"}], [{"op": "remove", "name": "/d/e/f"}], [{"op": "removeall", "name": "/d/e"}, {"op": "mkdir", "name": "/d/e", "perm": 0o700}],
+                             [{"op": "remove", "name": "/d/e/f"}, {"op": "mkdir", "name": "/d/e/f", "perm": 0o755}])):
+        for fin in ("close", "sync+close"):
+            calls = [{"op": "initialize"}, {"op": "mkdirall", "name": "/d/e", "perm": 0o755}, {"op": "open", "h": "a", "name": "/d/e/f", "flags": W, "perm": 0o644},
+                     {"op": "write", "h": "a", "blob": 0}] + [dict(c) for c in mid]
+            if fin != "close":
+                calls.append({"op": "sync", "h": "a"})
+            calls += [{"op": "close", "h": "a"}, {"op": "mkdir", "name": "/after", "perm": 0o755}]
+            hs.append({"config": {"rs": [20, 3][k % 2], "cache": "file"}, "blobs": [{"seed": 1, "len": 700}], "obs": FS_OBS, "calls": calls, "_nomodel": True, "_scenario": "open-handle:%d:%s" % (k, fin)})
+    rel = [[{"op": "mkdir", "name": "a", "perm": 0o755}, {"op": "mkdir", "name": "./a/b", "perm": 0o755}, {"op": "createfile", "name": "a/b/f", "blob": 0}, {"op": "chmod", "name": "a/b/f", "perm": 0o600},
+            {"op": "remove", "name": "."}, {"op": "rename", "name": "/a", "name2": "a/b/c"}, {"op": "rename", "name": "a", "name2": "./a"}, {"op": "rename", "name": ".", "name2": "/x"},
+            {"op": "rename", "name": "", "name2": "/x"}, {"op": "removeall", "name": "./a/b"}, {"op": "mkdirall", "name": "x/y/z", "perm": 0o755}, {"op": "rename", "name": "x/y", "name2": "./a/y"}],
+           [{"op": "mkdir", "name": "/.x", "perm": 0o755}, {"op": "rename", "name": "/.x", "name2": ".x/y"}, {"op": "rename", "name": ".x", "name2": "/y"}, {"op": "mkdir", "name": "y/b", "perm": 0o755},
+            {"op": "rename", "name": "y", "name2": "./y/b/c"}, {"op": "rename", "name": "./y/b", "name2": "y"}, {"op": "chown", "name": "y", "uid": 7, "gid": 8}]]
+    for k, body in enumerate(rel):
+        hs.append({"config": {"rs": [20, 3][k % 2], "cache": "file"}, "blobs": [{"seed": 1, "len": 10}], "obs": FS_OBS, "calls": [{"op": "initialize"}] + body, "_scenario": "relative-spellings:%d" % k})
+    return hs
+
+
 def fs_stream(ctx):
     """The FS history stream (C01 C02 C04 C05 C12 C13): corpus first, then generated histories.
     Returns list of dicts {h, res, rc, err}."""
@@ -115,6 +140,7 @@ def fs_stream(ctx):
         h.setdefault("obs", FS_OBS)
         hs.append(h)
     hs += scenario_histories(ctx)
+    hs += interplay_histories()
     hs += fs_histories(ctx, 40 if quick else 400, 16 if quick else 40, ops_level=True)
     hs += fs_histories(ctx, 30 if quick else 300, 14 if quick else 30, ops_level=False)
     res = hist.run_many(hs)
